@@ -6,11 +6,13 @@ Output: "#case" lines are echoed; one model line per operation.
 -/
 import LA.Drive.Lnk
 import LA.Drive.ReadAhead
+import LA.Drive.Codec
 open LA
 
 def engines : List (String × Engine) := [
   ("lnk", LA.Lnk.engine),
-  ("rda", LA.RA.engine)
+  ("rda", LA.RA.engine),
+  ("codec", LA.Codec.engine)
 ]
 
 partial def loop (e : Engine) (h : IO.FS.Stream) (out : IO.FS.Stream) (s : e.σ) : IO Unit := do
